@@ -123,6 +123,7 @@ type c10Scenario struct {
 	allModesQuick bool                       // quick tier runs every mode (default: the first two)
 	greetQuick    bool                       // quick tier cuts inside the greeting too
 	noHealthy     bool                       // without a cut the program ends only when the caller closes the client
+	quickStride int // quick tier: cut the long middle of the transcript at every n-th offset only
 }
 
 // c10B accumulates one scenario instance.
@@ -144,6 +145,18 @@ func (b *c10B) send(abs string, data string) {
 }
 
 const c10Caps = "IMAP4rev1 MOVE"
+
+// greetNoCaps: a greeting without a CAPABILITY code: the client refreshes the capabilities on its
+// own (a CAPABILITY command sent by a background goroutine, tag T1)
+func (b *c10B) greetNoCaps() {
+	s := "* OK hi"
+	b.send(fmt.Sprintf("g:%d", len(s)+2), s+"\r\n")
+	b.greetLen = b.total
+}
+
+// c10Quoted is a FETCH section sent as a quoted string: the client wraps it in a literal reader
+// too (the reader goroutine waits until it was read), without any further bytes on the wire.
+type c10Quoted string
 
 func (b *c10B) greet() {
 	s := "* OK [CAPABILITY " + c10Caps + "] hi"
@@ -196,6 +209,10 @@ func (b *c10B) fetch(cmd int, parts ...interface{}) {
 		switch p := p.(type) {
 		case string:
 			txt += p
+		case c10Quoted:
+			txt += `"` + string(p) + `"`
+			flush()
+			abs = append(abs, "l0")
 		case []byte:
 			txt += fmt.Sprintf("{%d}\r\n", len(p))
 			flush()
@@ -726,6 +743,9 @@ func genC10(e *emitter, tier string, seed uint64) {
 					// offset in a few scenarios only (thorough: in all)
 					continue
 				}
+				if tier == "quick" && s.quickStride > 1 && k > b.greetLen+40 && k < b.total-50 && k%s.quickStride != 0 {
+					continue
+				}
 				for _, f := range c10Faults {
 					if tier == "widen" && rg.intn(3) != 0 {
 						continue
@@ -762,7 +782,7 @@ func replayC10(e *emitter, kind string, f []string) {
 // c10QuickModes: how many consumption modes of a streaming scenario the quick tier runs
 func c10QuickModes(name string) int {
 	switch name {
-	case "list", "expunge", "fetch-two-lits", "fetch-lit40":
+	case "list", "expunge", "fetch-two-lits", "fetch-lit40", "fetch-many-atts":
 		return 2
 	}
 	return 1
